@@ -6,6 +6,7 @@ CONSTANTS
   Mons = {"mon1"}
   Pausables = {"pdet"}
   Flyers = {}
+  AsyncDevs = {}
   ReadVal <- ReadValDef
   DataKeys <- DataKeysDef
   FutNames = {"f1", "f2"}
